@@ -129,6 +129,8 @@ Definition check_matrix (c : cls) (insts : list (list nat)) (seen_eq : list (nat
   Nat.eqb (length seen_lab) (length insts)
   && list_eqb Bool.eqb (map (fun f => is_some (attr_key fts f)) (flds c)) seen_keys
   && respects (combine (map (advertised_compute c seen_keys) insts) seen_lab)
+  (* ... and with "keyed" read off the declaration: a key callable that was GIVEN is applied, falsy or not *)
+  && respects (combine (map (advertised_compute c (map (fun _ => true) (flds c))) insts) seen_lab)
   && forallb (fun vs => Nat.eqb (length vs) (length (flds c))) insts
   && list_eqb pair_eqb (if eqgen c then pred_eq c insts
                         else map (fun i => (i, i)) (seq 0 (length insts))) seen_eq
